@@ -5,6 +5,7 @@ CONSTANTS
   QueryClasses = {"DA","Base","P"}
   AllowClear = TRUE
   AllowRelate = TRUE
+  AllowQueryX = FALSE
   AllowSweep = TRUE
   Hist = FALSE
   PopIdOfNone = FALSE
@@ -17,4 +18,5 @@ INVARIANT C13
 INVARIANT C14
 INVARIANT C20reg
 INVARIANT C20pin
+INVARIANT C20same
 INVARIANT RegistryComplete
